@@ -6,6 +6,9 @@ from c02 import shipped_scenarios
 CLS = ["none", "inforce", "cross", "tool", "foreign", "unknown"]
 
 
+REPLAY = ("TraceSearch", engine.TRACE_CFG % '"C04"')
+
+
 def signature(ev):
     sc = ev["sc"]
     path = ev["path"].replace("cached-", "")
